@@ -463,6 +463,16 @@ impl GraphTensor {
             return;
         }
 
+        // The deleted set is forgotten below; `incoming()` filters by it, so the
+        // deleted edges have to leave the incoming index here or they reappear.
+        if !deleted.is_empty() {
+            let mut incoming = self.incoming_index.write();
+            for edges in incoming.values_mut() {
+                edges.retain(|(_, edge_id)| !deleted.contains(edge_id));
+            }
+            incoming.retain(|_, edges| !edges.is_empty());
+        }
+
         // Collect all edges from CSR
         let mut all_edges: Vec<EdgeEntry> = {
             let csr = self.csr.read();
@@ -673,10 +683,26 @@ impl GraphTensor {
             }
         }
 
-        // Restore edges
-        for edge in snapshot.edges {
-            let edge_type = &snapshot.edge_types[edge.edge_type_idx as usize];
-            graph.add_edge(edge.from, edge.to, edge_type, edge.directed);
+        // Restore edges under their original ids: callers hold edge ids and
+        // `edge_data` is keyed by them, so they must not be renumbered (the
+        // snapshot lists edges in CSR order, not in id order, and ids of
+        // deleted edges leave gaps).
+        {
+            let mut incoming = graph.incoming_index.write();
+            let mut pending = graph.pending.lock();
+            for edge in &snapshot.edges {
+                incoming
+                    .entry(edge.to)
+                    .or_default()
+                    .push((edge.from, edge.edge_id));
+                pending.push(EdgeEntry {
+                    edge_id: edge.edge_id,
+                    from: edge.from,
+                    to: edge.to,
+                    edge_type: EdgeTypeId(edge.edge_type_idx),
+                    directed: edge.directed,
+                });
+            }
         }
 
         // Restore counters
@@ -691,6 +717,10 @@ impl GraphTensor {
         for (key, data) in snapshot.edge_data.iter() {
             graph.edge_data.set(key, data.clone());
         }
+
+        // Build the CSR now that the counters are in place (reads scan the
+        // pending log linearly until the first merge).
+        graph.merge();
 
         graph
     }
